@@ -38,6 +38,7 @@ def run(ctx):
     r3(ctx, facts)
     r4(ctx, facts)
     r5_placeholder_scanner(ctx, facts)
+    r5d_scanner_terminates(ctx, facts)
     r6_named_flag_witness(ctx)
     # the key/value pairs travel with the event (buffer growth, backtrace ring) and never stay behind in a slot (= C03.R4t)
     from rules import c03
@@ -386,6 +387,64 @@ def r5_placeholder_scanner(ctx, facts):
     ok_c = len(tail) >= 2
     ctx.ob("C19.R5c", "_process_named_args_format_message:literal-text-kept", ok_c,
            "the text between placeholders and the tail after the last one are copied from the template (%d copies)" % len(tail), fn=f)
+
+
+FIND_RE = r"basic_string(_view)?<.*>::(find_first_of|find|find_last_of|rfind|find_first_not_of|find_last_not_of)(<.*>)?$"
+
+
+def search_never_starts_behind_npos(ctx, f, rule, site, floor=1):
+    """a search that starts at `V + c` (c >= 1) where V holds the result of an earlier search wraps around to the beginning of the text
+    when V is npos (npos + 1 == 0): the scanner then finds the same character again and never ends. Every path from a definition of V by
+    a search to such a use passes through the 'found' outcome of a test of V against npos."""
+    g = f.g
+    inits = f.var_inits()
+
+    def is_npos(e):
+        return any(x["k"] == "DeclRefExpr" and (x.get("name") or "").endswith("npos") for x in walk(e))
+    n_ob = 0
+    for c in f.calls(FIND_RE):
+        if len(c.get("args", [])) < 2:
+            continue
+        st = strip(c["args"][1], casts=True)
+        if not isnode(st) or st["k"] in ("IntegerLiteral", "CXXDefaultArgExpr") or var_ref(st) is not None:
+            continue        # a constant start, or the position itself: npos stays npos
+        if not (st["k"] == "BinaryOperator" and st["op"] == "+" and var_ref(st["lhs"]) is not None and (const_val(st["rhs"]) or 0) >= 1):
+            raise AnalysisBroken("%s: start position of a search is neither a position nor 'position + constant' (%s)" % (f.short, c.get("loc")))
+        v = var_ref(st["lhs"])
+        defs = []
+        if v in inits and isnode(inits[v]):
+            defs += [x for x in walk(inits[v]) if is_call(x, FIND_RE)]
+        for a in f.assignments_to_var(v):
+            if isnode(a.get("rhs")):
+                defs += [x for x in walk(a["rhs"]) if is_call(x, FIND_RE)]
+        dpos = [p_ for d in defs for p_ in g.positions(d)]
+        if not dpos:
+            continue        # not the result of a search
+        notfound = []       # edges on which V is (or may be) npos: the outcome 'V == npos' of a test; every other way to the use has no test at all
+        found = []
+        for bid in g.blocks:
+            cnd = g.term_cond(bid)
+            if cnd is None or not any(var_ref(x) == v for x in walk(cnd)) or not is_npos(cnd):
+                continue
+            nc = norm_cmp(cnd)
+            if not nc or nc[0] not in ("==", "!="):
+                raise AnalysisBroken("%s: test of a search result against npos in an unknown form (%s)" % (f.short, cnd.get("loc")))
+            found.append((bid, "T" if nc[0] == "!=" else "F"))
+            notfound.append((bid, "F" if nc[0] == "!=" else "T"))
+        up = g.positions(c)
+        # reach the use from a definition without crossing a 'found' edge = every test on the way (if any) was left on 'not found'
+        tests = [tnode(g, b) for (b, _) in found]
+        ok = bool(found) and not g.exists_path(dpos, up, avoid_nodes=tests) and not g.exists_path(dpos, up, avoid_edges=found)
+        n_ob += 1
+        ctx.ob(rule, "%s:search#%d-from-%s+%s" % (site, n_ob, next((x.get("name") for x in walk(st["lhs"]) if x["k"] == "DeclRefExpr"), "?"), const_val(st["rhs"])), ok,
+               "a search that starts one behind an earlier search result is made only after that result was tested 'found' (npos + 1 wraps to "
+               "0: the scanner would find the same character again and the backend thread would never leave the loop)", loc=c.get("loc", ""), fn=f)
+    ctx.floor(rule, "%s: searches starting behind an earlier result" % site, n_ob, floor)
+
+
+def r5d_scanner_terminates(ctx, facts):
+    f = facts.need(BW + "_process_named_args_format_message", "A")[0]
+    search_never_starts_behind_npos(ctx, f, "C19.R5d", "_process_named_args_format_message", floor=3)
 
 
 TEMPLATE_ALPHABET = ["{", "}", "a", "_", "0", ":", " "]
